@@ -41,6 +41,7 @@ def run(ctx):
     ctx.guard(r4_occupancy)
     ctx.guard(r5_sizes)
     ctx.guard(r6_bsearch)
+    ctx.guard(r7_levels)
 
 
 def _cls(ctx, name):
@@ -419,3 +420,10 @@ def r6_bsearch(ctx):
                     "`%s`: the last slot is never probed, so the lookup can "
                     "return the handle after the first stored coordinate not "
                     "below the query" % text(w.test), text_="coordToHandle search loop")
+
+
+def r7_levels(ctx):
+    n = 0
+    for key in ("codec/tensor_codec.py:Codec.encode", "codec/tensor_codec.py:Codec.get_occupancies"):
+        n += pat.check_unit_recursion(ctx, "C20.R1", ctx.func(key), "rank-by-rank encoding")
+    ctx.floor("C20.R1", n, 2, "recursion steps of the codec")
